@@ -185,6 +185,8 @@ def runOps (b : Bytes) : List String → St → List String → String
       | .ok n s' => runOps b rest s' (s!"n={n}" :: acc)
       | .err e s' => fail e s'
     else if o == "e" then runOps b rest s (s!"e={boolStr (eof b s)}" :: acc)
+    else if o == "z" then runOps b rest { s with ptr := Gen.resetPtr } ("z" :: acc)      -- archive::reset()
+    else if o == "m" then runOps b rest { s with ptr := Gen.modePtr } ("m" :: acc)       -- archive::mode(load_from_archive)
     else if o == "s" then
       match readChunkAsString b s with
       | .ok d s' => runOps b rest s' (("s=" ++ rawHex d) :: acc)
@@ -224,6 +226,15 @@ def step (_ : Unit) (line : String) : Unit × String :=
             | .ok w s => join (["ok"] ++ dumpVal ty w ++ (if op == "rt" then [s!"eof={boolStr (eof b s)}"] else []))
             | .err e _ => errStr e)
           | none => "bad-op"
+        else if op == "load2" then
+          -- archive::str() restarts at `Gen.strPtr` whatever the first load did
+          match rest with
+          | [_, h] => (match parseHex h with
+            | some b => (match load b ty St.init with
+              | .ok w s => join (["ok"] ++ dumpVal ty w ++ [s!"@{s.ptr}"])
+              | .err e _ => errStr e)
+            | none => "bad-op")
+          | _ => "bad-op"
         else if op == "load" || op == "sload" then
           match rest with
           | [h] => (match parseHex h with
